@@ -282,7 +282,7 @@ func runSessionHistory(c *hk.Ctx, cfg hk.SrvCfg, h []sOp, foreignID string, dist
 				}
 			}
 			if cfg.Mode == "stateless" {
-				want := map[string]int{"initOk": 200, "initBad": 200, "request": 200, "requestChatty": 200, "notifInitialized": 202, "notifOther": 202, "response": 202, "responseEmpty": 202, "invalid": 400}[op.K]
+				want := map[string]int{"initOk": 200, "initBad": 200, "request": 200, "requestChatty": 200, "notifInitialized": 202, "notifOther": 202, "response": 202, "responseEmpty": 400, "invalid": 400}[op.K]
 				if r.Status != want {
 					c.Violate(hk.Violation{Fingerprint: "session:stateless-answer-depends-on-id-or-history", What: "in stateless mode the answer must not depend on a session id or on earlier requests",
 						Input: map[string]any{"cfg": cfg, "history": h[:oi+1], "ref": refKind}, Observed: r.Status, Expected: want})
